@@ -478,6 +478,11 @@ func (a *Activation) hintedTypes(IT types.Type) []types.Type {
 		if !strings.HasSuffix(typeKey(IT), iname) {
 			continue
 		}
+		if strings.HasSuffix(strings.TrimSpace(tname), " only") {
+			// 'dyntype I T only': T is the only possibility; proved at each dispatch (obligation) instead of a residual branch
+			tname = strings.TrimSuffix(strings.TrimSpace(tname), " only")
+			a.hintExclusive = true
+		}
 		env := &ExprEnv{t: a.t, pkg: con.Pkg, src: c.Src}
 		e, err := parseSpec(tname)
 		if err != nil {
@@ -742,9 +747,10 @@ func (a *Activation) invoke0(recv Val, m *types.Func, args []Val, sig *types.Sig
 	//    'dyntype' clause of the contract under verification (the residual branch stays opaque)
 	cands := t.eng.implementers(IT)
 	hinted := false
+	a.hintExclusive = false
 	if hc := a.hintedTypes(IT); len(hc) > 0 {
 		cands = hc
-		hinted = true
+		hinted = !a.hintExclusive
 	}
 	if len(cands) == 0 {
 		// opaque method call
